@@ -74,6 +74,7 @@ funcs: spif_mbuff_new_from_ptr, spif_mbuff_del
 #ifdef U_DONE
 spif_bool_t spif_mbuff_done(spif_mbuff_t self)
 __CPROVER_requires(MBUFF_INV(self))
+__CPROVER_requires(MB_WIT_SELF(self))
 __CPROVER_assigns(self->buff, self->len, self->size)
 __CPROVER_frees(self->buff)
 __CPROVER_ensures(RV == TRUE && MBUFF_STATE_EMPTY(self))
@@ -110,6 +111,7 @@ void harness(void)
 #ifdef U_DEL
 spif_bool_t spif_mbuff_del(spif_mbuff_t self)
 __CPROVER_requires(MBUFF_INV(self))
+__CPROVER_requires(MB_WIT_SELF(self))
 __CPROVER_assigns(self->buff, self->len, self->size)
 __CPROVER_frees(self, self->buff)
 __CPROVER_ensures(RV == TRUE)
